@@ -186,6 +186,28 @@ CLAIMED.update({
             "DESIGN.md §3 C15", "induction-variable and dominance (ordering) rules over the controller's CFG; abstract interpretation of the time-control arithmetic with zone bounds"),
 })
 
+CLAIMED.update({
+    "C18": ("other",
+            "Decides the absence of every channel through which non-determinism or interference could enter: the search is launched on, and "
+            "Engine.Board hands out, a Fork() of the game while the engine's own board is used only as method receiver inside the engine; in all "
+            "code reachable (call graph) from any Search/QuietSearch/Evaluate/Explore method or exploration function there is no clock, global "
+            "random source or environment read, no map iteration except two reviewed commutative ones, no write to package variables or to state "
+            "outliving the call (per-search run objects, the exclusive board and the table excepted; sargon.Points is a frozen exception "
+            "justified by its wrapper resetting it before every search); every rand.New is seeded from an explicit parameter and the engine's "
+            "noise generator from (noise option, seed); repetition counting is decided by exact position equality, the hash being a pre-filter "
+            "only. Equality of results across runs as values is not decided.",
+            "DESIGN.md §3 C18", "effect/ownership rules over the call graph reachable from search entry points (who-may-call, field-write ownership, frozen exceptions)"),
+    "C20": ("other",
+            "Decides: every division in the three historical engines and pkg/eval has a divisor that is a non-zero constant or the result of a "
+            "function all of whose abstract return paths are non-zero (turochamp.material, bernstein.Evaluate); every call of a function with a "
+            "panicking default arm receives piece values inside its handled set, enumerated back to package-level lists, loop ranges and what the "
+            "move generator stores in Move.Piece / Move.Capture (the latter only under IsCapture); FindPlausibleMoves returns a filtered, "
+            "re-sorted view of LegalMoves, Explore truncates to the limit before Selection, the castle-branch filter runs only once a castle move "
+            "was ranked, exploration predicates see only successfully pushed moves; engine.NewBook records only accepted generated moves under "
+            "their own position's key. Mirror symmetry of the evaluations and legality of the hand-written SARGON replies are not decided.",
+            "DESIGN.md §3 C20", "abstract interpretation for non-zero divisors, value-set enumeration of piece arguments, subset-provenance of move lists"),
+})
+
 NOT_APPLICABLE = {
     "C11": "Transparency of the transposition table is a numeric equality between two complete searches over all positions x depths x table sizes x search sequences; no sound static abstraction in reach bounds it. Its shape-visible clauses are decided under C12 (no store after cancellation, exact bound only after a full loop), C04 (root exits) and C17 (slot discipline).",
 }
